@@ -244,9 +244,7 @@ func (c04) Generate(tier string, yield func(*engine.Case) bool) {
 	for _, ty := range []*gen.Ty{gen.Num, gen.Bool, gen.Str, tyLNum} {
 		if tier == "thorough" {
 			g.Each(ty, 2, func(t *gen.Term) bool {
-				if t.Depth() == 2 {
-					emit(progCase("comp", t, env, "E"))
-				}
+				emit(progCase("comp", t, env, "E"))
 				return ok
 			})
 		} else {
